@@ -1,8 +1,12 @@
 package sched
 
 import (
+	"context"
+
 	"encoding/json"
 	"fmt"
+	"github.com/ory/keto/internal/namespace"
+	"github.com/ory/keto/internal/namespace/ast"
 	"os"
 	"os/exec"
 	"path/filepath"
@@ -18,17 +22,17 @@ import (
 // binary (path-local visited sets, see DESIGN.md known finding KF-C01-1) can
 // re-explore exactly the same scenario.
 type Cand struct {
-	Cfg    CfgRef
-	Tuples []refsem.Tuple // in row order
-	Query  refsem.Tuple
-	Bound  int
-	Depth  int
-	Width  int
+	Cfg      CfgRef
+	Tuples   []refsem.Tuple // in row order
+	Query    refsem.Tuple
+	Bound    int
+	Depth    int
+	Width    int
 	ReqDepth int
-	Oracle string // "equals-ref" | "fail-closed"
-	What   string
-	Sig    string
-	Choices []int
+	Oracle   string // "equals-ref" | "fail-closed"
+	What     string
+	Sig      string
+	Choices  []int
 }
 
 func (c *Cand) replay() map[string]any {
@@ -204,10 +208,10 @@ func TestC01(t *testing.T) {
 		leaves = []int{LIncA, LIncB, LTrvAP, LTrvAB, LPermQ}
 	}
 	var cov struct {
-		cases, judged, nontrivial, cut, outOfDomain, unconnected, allowed, denied int
-		sExecs, sTrans, sStates, sScen, sHeavy                                  int
-		strictCases, maxThreads, sqlCases, sqlCalls                              int
-		complete                                                                 bool
+		cases, judged, nontrivial, cut, outOfDomain, unconnected, allowed, denied         int
+		sExecs, sTrans, sStates, sScen, sHeavy                                            int
+		strictCases, maxThreads, sqlCases, sqlCalls, wideCases, chainCases, chainPrograms int
+		complete                                                                          bool
 	}
 	cov.complete = true
 	var cands []*Cand
@@ -346,6 +350,11 @@ func TestC01(t *testing.T) {
 		cov.strictCases += cov.judged - before
 	}
 
+	// (A'') operator chains as TEXT: every || / && tree over 3 and 4 different relations, with no or one negated
+	// leaf, written with the parentheses TypeScript needs and no others; the engine's decision on every
+	// assignment of direct tuples must be the value of the tree (end to end through the OPL parser)
+	cov.chainCases, cov.chainPrograms = c01Chains(t, run, shard, nshards)
+
 	// (B) the same engine over the REAL SQL persister and traverser (storage calls are atomic steps),
 	// row order forced through shard_id; the answer must equal both the reference and the answer over
 	// the in-memory store, and both stores must have served the same number of calls - this is what
@@ -392,6 +401,82 @@ func TestC01(t *testing.T) {
 				}
 			}
 		})
+	}
+
+	// (B') wide nodes: the SQL traverser pages the subject sets of one object#relation by 1000 rows. N subject
+	// sets for N around one and two pages; the subject is a member of none, or of exactly the K-th in storage
+	// order, for every K around the page seams (thorough: every K). The traversal must list every subject set
+	// once up to and including the K-th, and the check must be allowed iff there is a K.
+	{
+		w.SetNamespaces(t, sqlCfgs[0].NS)
+		type wide struct{ N, K int }
+		var wides []wide
+		for _, N := range []int{999, 1000, 1001, 2000, 2001, 2002} {
+			wides = append(wides, wide{N, 0})
+			for _, K := range []int{1, 2, 998, 999, 1000, 1001, 1002, 1003, 1999, 2000, 2001, 2002} {
+				if K <= N {
+					wides = append(wides, wide{N, K})
+				}
+			}
+		}
+		if ev.Thorough() {
+			for _, N := range []int{1001, 2002} {
+				for K := 1; K <= N; K++ {
+					wides = append(wides, wide{N, K})
+				}
+			}
+		}
+		gname := func(j int) string { return fmt.Sprintf("g%04d", j) }
+		for i, c := range wides {
+			if i%nshards != shard {
+				continue
+			}
+			if deadlinePassed(deadline) {
+				cov.complete = false
+				break
+			}
+			ts := make([]refsem.Tuple, 0, c.N+1)
+			for j := 1; j <= c.N; j++ {
+				ts = append(ts, tss("o1", "a", gname(j), "a"))
+			}
+			if c.K > 0 {
+				ts = append(ts, tid(gname(c.K), "a", "u"))
+			}
+			q := tid("o1", "a", "u")
+			rows := w.Rows(ts)
+			so := w.RunCheckSQL(t, rows, w.Internal(q), vsched.Config{FastBase: true}, 8)
+			cov.sqlCases++
+			cov.wideCases++
+			rep := map[string]any{"family": "wide-node", "subject_sets": c.N, "member_of_position": c.K, "query": q.String()}
+			if so.Res.Err != nil || (so.Res.Membership == checkgroup.IsMember) != (c.K > 0) {
+				run.Violation("sql-backed-wrong-decision:wide-node", fmt.Sprintf("o1#a has %d subject sets g0001#a..; u is a member of %s only: SQL-backed check of o1#a@u answers %s (err %v)", c.N, map[bool]string{true: "the one at storage position " + fmt.Sprint(c.K), false: "none"}[c.K > 0], memb(so.Res), so.Res.Err), rep)
+				continue
+			}
+			res, err := w.Reg.Traverser().TraverseSubjectSetExpansion(context.Background(), w.Internal(q))
+			wantLen := c.N
+			if c.K > 0 {
+				wantLen = c.K
+			}
+			bad := ""
+			seenObj := map[string]bool{}
+			for j, r := range res {
+				if r.To == nil || r.To.Object != w.Names.ID(gname(j+1)) {
+					bad = fmt.Sprintf("entry %d is not the subject set at storage position %d", j+1, j+1)
+					break
+				}
+				seenObj[r.To.Object.String()] = true
+				if r.Found != (c.K > 0 && j+1 == c.K) {
+					bad = fmt.Sprintf("entry %d has found=%v", j+1, r.Found)
+					break
+				}
+			}
+			if bad == "" && (err != nil || len(res) != wantLen) {
+				bad = fmt.Sprintf("%d entries (err %v), want %d", len(res), err, wantLen)
+			}
+			if bad != "" {
+				run.Violation("sql-traverser-page-seam", fmt.Sprintf("TraverseSubjectSetExpansion over %d subject sets (member: position %d): %s", c.N, c.K, bad), rep)
+			}
+		}
 	}
 
 	// (C) schedule exploration: every schedule up to the deviation bound on the scenario catalogue
@@ -484,27 +569,143 @@ func TestC01(t *testing.T) {
 
 	attribute(run, "C01", cands)
 	run.FinishPart(map[string]any{
-		"states":                        cov.sStates + cov.judged,
-		"transitions":                   cov.sTrans + cov.judged,
-		"traces_validated_against_impl": cov.sExecs + cov.judged,
-		"input_cases":                   cov.cases,
-		"input_cases_judged":            cov.judged,
+		"states":                          cov.sStates + cov.judged,
+		"transitions":                     cov.sTrans + cov.judged,
+		"traces_validated_against_impl":   cov.sExecs + cov.judged,
+		"input_cases":                     cov.cases,
+		"input_cases_judged":              cov.judged,
 		"input_cases_distinct_nontrivial": cov.nontrivial,
-		"input_cases_cut_by_limits":     cov.cut,
-		"input_cases_out_of_domain":     cov.outOfDomain,
+		"input_cases_cut_by_limits":       cov.cut,
+		"input_cases_out_of_domain":       cov.outOfDomain,
 		"input_cases_not_query_connected": cov.unconnected,
-		"strict_mode_cases":             cov.strictCases,
-		"sql_backed_cases":              cov.sqlCases,
-		"store_calls_cross_checked":     cov.sqlCalls,
-		"ref_allowed":                   cov.allowed,
-		"ref_denied":                    cov.denied,
-		"schedule_scenarios":            cov.sScen,
-		"schedule_executions":           cov.sExecs,
-		"schedule_states":               cov.sStates,
-		"max_deviation_bound":           bound,
-		"max_tuples":                    nT,
-		"max_threads":                   cov.maxThreads,
-		"max_configs":                   len(cfgs) + len(strictCfgs),
-		"exhaustive":                    cov.complete,
+		"strict_mode_cases":               cov.strictCases,
+		"sql_backed_cases":                cov.sqlCases,
+		"sql_wide_node_cases":             cov.wideCases,
+		"opl_text_chain_programs":         cov.chainPrograms,
+		"opl_text_chain_cases":            cov.chainCases,
+		"store_calls_cross_checked":       cov.sqlCalls,
+		"ref_allowed":                     cov.allowed,
+		"ref_denied":                      cov.denied,
+		"schedule_scenarios":              cov.sScen,
+		"schedule_executions":             cov.sExecs,
+		"schedule_states":                 cov.sStates,
+		"max_deviation_bound":             bound,
+		"max_tuples":                      nT,
+		"max_threads":                     cov.maxThreads,
+		"max_configs":                     len(cfgs) + len(strictCfgs),
+		"exhaustive":                      cov.complete,
 	})
+}
+
+// ---- operator chains as OPL text ------------------------------------------------------------------------
+
+type ctree struct {
+	op   string // "" (leaf) | "||" | "&&"
+	l, r *ctree
+	leaf int
+	neg  bool
+}
+
+func ctrees(lo, hi int) []*ctree {
+	if hi-lo == 1 {
+		return []*ctree{{leaf: lo}}
+	}
+	var out []*ctree
+	for m := lo + 1; m < hi; m++ {
+		for _, l := range ctrees(lo, m) {
+			for _, r := range ctrees(m, hi) {
+				for _, op := range []string{"||", "&&"} {
+					out = append(out, &ctree{op: op, l: l, r: r})
+				}
+			}
+		}
+	}
+	return out
+}
+
+func (t *ctree) eval(a []bool) bool {
+	switch t.op {
+	case "":
+		return a[t.leaf] != t.neg
+	case "||":
+		return t.l.eval(a) || t.r.eval(a)
+	}
+	return t.l.eval(a) && t.r.eval(a)
+}
+
+// text: minimal parentheses (&& binds tighter than ||; equal operators need none)
+func (t *ctree) text(parent string, negLeaf int) string {
+	if t.op == "" {
+		s := fmt.Sprintf("this.related.%c.includes(ctx.subject)", 'a'+t.leaf)
+		if t.leaf == negLeaf {
+			s = "!" + s
+		}
+		return s
+	}
+	s := t.l.text(t.op, negLeaf) + " " + t.op + " " + t.r.text(t.op, negLeaf)
+	if parent == "&&" && t.op == "||" {
+		s = "(" + s + ")"
+	}
+	return s
+}
+
+func (t *ctree) setNeg(negLeaf int) {
+	if t.op == "" {
+		t.neg = t.leaf == negLeaf
+		return
+	}
+	t.l.setNeg(negLeaf)
+	t.r.setNeg(negLeaf)
+}
+
+func c01Chains(t *testing.T, run *ev.Run, shard, nshards int) (cases, programs int) {
+	seen := map[string]bool{}
+	idx := 0
+	for _, n := range []int{3, 4} {
+		for _, tr := range ctrees(0, n) {
+			for negLeaf := -1; negLeaf < n; negLeaf++ {
+				expr := tr.text("", negLeaf)
+				if seen[expr] {
+					continue // (a || b) || c and a || (b || c) are the same text and the same function
+				}
+				seen[expr] = true
+				idx++
+				if idx%nshards != shard {
+					continue
+				}
+				tr.setNeg(negLeaf)
+				rels := ""
+				var astRels []ast.Relation
+				for i := 0; i < n; i++ {
+					rels += fmt.Sprintf("    %c: U[]\n", 'a'+i)
+					astRels = append(astRels, ast.Relation{Name: string(rune('a' + i))})
+				}
+				opl := "import { Namespace, Context } from \"@ory/keto-namespace-types\"\n\nclass U implements Namespace {}\n\nclass n implements Namespace {\n  related: {\n" + rels + "  }\n  permits = {\n    p: (ctx: Context): boolean => " + expr + ",\n  }\n}\n"
+				nss := []*namespace.Namespace{{Name: "U"}, {Name: "n", Relations: astRels}}
+				w := NewWorld(t, WorldOpt{Namespaces: nss, OPL: opl, Depth: 50}) // (nested operators consume depth)
+				programs++
+				for m := 0; m < 1<<n; m++ {
+					a := make([]bool, n)
+					var ts []refsem.Tuple
+					for i := 0; i < n; i++ {
+						if m>>i&1 == 1 {
+							a[i] = true
+							ts = append(ts, tid("o", string(rune('a'+i)), "u"))
+						}
+					}
+					o := w.RunCheck(w.Rows(ts), w.Internal(tid("o", "p", "u")), vsched.Config{FastBase: true}, RunOpt{})
+					cases++
+					want := tr.eval(a)
+					if o.Cut {
+						continue // answers cut short by a limit are C02's subject
+					}
+					if o.X.Outcome != "ok" || o.Res.Err != nil || (o.Res.Membership == checkgroup.IsMember) != want {
+						run.Violation("opl-text-chain:decision-differs-from-typescript-reading", fmt.Sprintf("permission p = %s with direct tuples %s: check o#p@u answers %s (err %v, %s); the expression evaluates to %v", expr, tuplesStr(ts), memb(o.Res), o.Res.Err, o.X.Outcome, want), map[string]any{"family": "opl-text-chain", "expression": expr, "opl": opl, "tuples": tuplesStr(ts)})
+						break
+					}
+				}
+			}
+		}
+	}
+	return cases, programs
 }
